@@ -486,6 +486,10 @@ inductive Obj where
   | el (c : ElCaps)
   /-- a tuple of element objects -/
   | tuple (els : List ElCaps)
+  /-- a list of element objects: iterable like a tuple (`is_fill_compute_seq` / `is_fill_request_seq`
+  look into it, `FillComputeSeq(*seq)` / `FillRequestSeq(*seq)` unpack it), but not a tuple:
+  `Sequence(seq)` takes the list as ONE element, which is neither a Run element nor callable -/
+  | list (els : List ElCaps)
   deriving Repr
 
 /-- `ct.is_fill_compute_el` -/
@@ -509,6 +513,7 @@ def Obj.isFillComputeSeq : Obj → Bool
   | .seq => false
   | .el c => c.isFC
   | .tuple els => els.any ElCaps.isFC
+  | .list els => els.any ElCaps.isFC
 
 /-- `ct.is_fill_request_seq(seq)` called directly (`FillRequestSeq` has `fill` and `request`) -/
 def Obj.isFillRequestSeq : Obj → Bool
@@ -518,6 +523,7 @@ def Obj.isFillRequestSeq : Obj → Bool
   | .seq => false
   | .el c => c.isFR
   | .tuple els => els.any ElCaps.isFR
+  | .list els => els.any ElCaps.isFR
 
 /-- `Sequence(*els)` succeeds -/
 def sequenceOk (els : List ElCaps) : Bool := els.all ElCaps.runnable
@@ -566,6 +572,15 @@ def classify (bufsizeOk : Bool) : Obj → Except Exc Kind
         if bufsizeOk then .ok .fillRequest else .error .lenaValueError
       else .error .lenaTypeError
     else if sequenceOk els then .ok .sequence
+    else .error .lenaTypeError
+  | .list els =>
+    if els.any ElCaps.isFC then
+      if fillSeqOk ElCaps.isFC els then .ok .fillCompute else .error .lenaTypeError
+    else if els.any ElCaps.isFR then
+      if fillSeqOk ElCaps.isFR els then
+        if bufsizeOk then .ok .fillRequest else .error .lenaValueError
+      else .error .lenaTypeError
+    -- `Sequence(seq)`: the list itself is the only element
     else .error .lenaTypeError
 
 /-- `for sequence in seqs: seq, seq_type = _get_seq_with_type(sequence, bufsize)`
